@@ -24,6 +24,10 @@ CHECKS = {
     text="TLC (MC_Compare) enumerates the complete grid 9 operators x 40 needles x 40 typed haystacks as states, checks the algebraic laws of the documented comparison (trichotomy and duality of ordering on numbers, numeric-vs-text ordering false, prefix/suffix imply contains, textual equality, boolean spelling) and emits the expected answer of every cell; each cell is replayed into Searches.search_matches on values loaded by yamlpath's own loader; inversion is checked as a partition of the candidates by (plain, inverted) query pairs over the MC_Query corpus.",
     note="Trusted: TLC; Matches in spec/YCompare.tla as the reading of CHANGES 3.5/3.6 and the property text; PyLit as the abstraction of ast.literal_eval on the pool's alphabet. Cells the documentation leaves open (bool-as-int, None look-alikes, non-canonical float text, regex outside the modelled fragment) are informational. Regular expressions: literals, '.', postfix '*', '^', '$', escaped literals.",
     technique="TLA+ comparison ladder + laws checked by TLC over the full grid, S->C replay", ref="4/C12"),
+ "C13": dict(
+    text="TLC (MC_Keywords) builds collections one member at a time - lists of scalars with repeats, Arrays-of-Hashes and Hashes-of-Hashes whose shared attribute is present, absent, repeated or null, and the same list under a key - evaluates max/min/unique/distinct/has_child/name/parent (inverted or not, with and without parameter) with the declarative definitions KwStep of spec/YQuery.tla, checks the set laws (max and !max partition the members, unique and !unique are disjoint, unique within distinct, ...) and emits the expected members; keyword segments after key/index/*/** segments and parent(n) for every depth come from the MC_Query corpus; all cases are replayed into the real Processor.",
+    note="Trusted: TLC; KwStep as the reading of C13 / README 'Search Keywords'. Collections of mixed kinds, null attribute values and containers as compared values are informational (documentation silent). Inverted max/min/unique are compared as sets. Bounds: quick = lists <= 3, records <= 3; thorough = lists <= 5, records <= 4.",
+    technique="TLA+ declarative keyword semantics + set laws checked by TLC, S->C replay", ref="4/C13"),
 }
 NA_REASON = "check not built yet in this round (specification family under construction; see DESIGN.md section 9)"
 def main():
